@@ -3,6 +3,7 @@ package rules
 import (
 	"fmt"
 	"go/token"
+	"math"
 
 	"golang.org/x/tools/go/ssa"
 
@@ -364,6 +365,19 @@ func yearArithmeticGuarded(r *core.Run, rule string, h *core.Handler) {
 							x, y, op = y, x, flip(op)
 						}
 					}
+					// multiplication by a constant c: a constant bound K with K*c <= MaxInt64 is the folded division form
+					if kc, isK := y.(*ssa.Const); isK && kc.Value != nil && (op == token.LEQ || op == token.LSS) {
+						var cc *ssa.Const
+						var other ssa.Value
+						if c1, ok := bo.X.(*ssa.Const); ok {
+							cc, other = c1, bo.Y
+						} else if c2, ok := bo.Y.(*ssa.Const); ok {
+							cc, other = c2, bo.X
+						}
+						if cc != nil && cc.Int64() > 0 && kc.Int64() > 0 && kc.Int64() <= math.MaxInt64/cc.Int64() && tb.Term(x) == tb.Term(other) {
+							return true
+						}
+					}
 					q, ok := y.(*ssa.BinOp)
 					if !ok || q.Op != token.QUO || (op != token.LEQ && op != token.LSS) {
 						return false
@@ -426,8 +440,11 @@ func yearArithmeticGuarded(r *core.Run, rule string, h *core.Handler) {
 				if ca.Kind != "cmp" {
 					return false
 				}
+				if !isZero(ca.X) && !isZero(ca.Y) {
+					return false
+				}
 				rel := relOnEdge(p, ca, truth, func(pr core.Prov) bool { return p.HasMsgField(pr, h, "Years") }, func(pr core.Prov) bool { return len(pr.DataAtoms()) == 0 })
-				return rel == "<=" || rel == "<"
+				return rel == "<="
 			}
 			u := p.FindUnguarded(fn, []*core.Effect{{Instr: bo}}, anyOf(guard, nonPos), true)
 			what := "multiplication by the year count"
